@@ -22,10 +22,12 @@ int poll_set_new_evt(poll_priv_t *priv, ev_src_t *tmp, const enum op_type flag) 
     GET_PRIV_DATA();
 
     /* Eventually alloc epoll data if needed */
+    bool new_ev = false;
     if (!tmp->ev) {
         if (flag == ADD) {
             tmp->ev = memhook._calloc(1, sizeof(struct epoll_event));
             M_ALLOC_ASSERT(tmp->ev);
+            new_ev = true;
         } else {
             /* We need to RM an unregistered ev. Fine. */
             return 0;
@@ -54,6 +56,18 @@ int poll_set_new_evt(poll_priv_t *priv, ev_src_t *tmp, const enum op_type flag) 
     /* Workaround for STDIN_FILENO: it returns EPERM but it is actually pollable */
     if (ret == -1 && fd == STDIN_FILENO && errno == EPERM) {
         ret = 0;
+    }
+
+    /* Nothing was added: leave no trace behind (thus a later RM is a no-op) */
+    if (flag == ADD && ret != 0 && new_ev) {
+        const int err = errno;
+        memhook._free(tmp->ev);
+        tmp->ev = NULL;
+        if (tmp->type > M_SRC_TYPE_FD && fd != -1) {
+            close(fd);
+            tmp->fd_src.fd = -1;
+        }
+        errno = err;
     }
 
     /* Eventually free epoll data if needed */
